@@ -59,7 +59,8 @@ func (p *Party) Calculate() error {
 
 func (p *Party) normalizers() tax.Normalizers {
 	if r := p.RegimeDef(); r != nil {
-		return tax.Normalizers{r.Normalizer}
+		// not every regime has a normalizer
+		return tax.Normalizers{}.Append(r.Normalizer)
 	}
 	return nil
 }
